@@ -49,11 +49,66 @@ def refine_case(task):
     return msgs
 
 
+def history_case(task):
+    """Step-wise histories over {G: two global iterations, S: Solve, L: DoLocalRefinement(8)}: after every operation the
+    reported value must be the objective at the reported point (re-evaluated), the point lies in the box, and - as long
+    as no refinement has happened - the reported optimum is the best search trial."""
+    import numpy as np
+    from mc import tree
+    from mc.env import Snapshot
+    from mc.envs import make_env
+    from mc.monitors import check_optimum
+    cfg = dict(N=task["N"], r=2.5, box=task["box"], env=task["env"], eps=0.0, itersLimit=task["limit"])
+    f = make_env(cfg["env"], cfg)
+    run = tree.make_run(cfg, f)
+    msgs = []
+    done = []
+    refined = False
+    for op in task["ops"]:
+        done.append(op)
+        try:
+            if op == "G":
+                run.step(2)
+            elif op == "S":
+                run.solve()
+            else:
+                run.refine(8, lambda y: f(0, y))
+                refined = True
+        except BaseException as e:
+            msgs.append(f"{cfg['env']} N={cfg['N']}: operations {done} raised {type(e).__name__}: {e}")
+            break
+        snap = Snapshot(run.solver)
+        if snap.best_point is None:
+            msgs.append(f"{cfg['env']} N={cfg['N']}: after {done} no best trial is reported")
+            break
+        v = f(0, snap.best_point)
+        if not (snap.best_value == v):
+            msgs.append(f"{cfg['env']} N={cfg['N']}: after {done} the reported value {snap.best_value!r} is not the objective "
+                        f"{v!r} at the reported point {snap.best_point.tolist()}")
+            break
+        if not refined:
+            msgs += [f"{cfg['env']} N={cfg['N']} after {done}: {m}" for m in check_optimum(snap, run.problem.log, "step-wise")]
+            if msgs:
+                break
+    return msgs
+
+
 def run(ctx):
     tasks = solverexp.standard_plan(ctx, VIS, alphabets_fixed=("A001", "A013", "Ahalf"),
                                     alphabet_pool=("A01", "Am201", "A3210"), n_seeded=1,
                                     depths_quick=(7, 6, 5, 5, 4), depths_thorough=(9, 8, 7, 6, 6))
     res, agg = solverexp.execute(tasks)
+    import itertools
+    from mc.common import pmap as _pmap
+    htasks = []
+    for N, bx, env in ((1, "B1", "sin"), (2, "B2", "abs13"), (1, "B0", "stair")) + (((3, "B1", "sin"),) if ctx.thorough else ()):
+        for L in range(1, 5 if not ctx.thorough else 6):
+            for tail in itertools.product("GSL", repeat=L - 1):
+                for limit in (3, 9):
+                    htasks.append(dict(N=N, box=bx, env=env, ops=["G"] + list(tail), limit=limit))
+    for t, msgs in zip(htasks, _pmap(history_case, htasks, chunksize=8)):
+        for m in msgs:
+            res.add_violation(dict(driver="history", **t, message=m, sig={}))
     # Solve with each shipped painting listener attached (they probe the objective and draw through the optimum when
     # the method stops): the returned Solution / the record must still be those of the search trials
     from mc import painters
@@ -82,7 +137,7 @@ def run(ctx):
              "(member of the log, value equals the answer there, no smaller answer) from outside, inside OnEndIteration, "
              "inside OnMethodStop of a Solve twin and on the returned Solution; non-trivial = executions whose optimum "
              "moved after the first trial or whose minimum value is attained by several trials",
-        exhaustive=True, painter_runs=len(ptasks), bounds=solverexp.describe(tasks), resolution_horizon_stops=agg["horizon_stops"],
+        exhaustive=True, painter_runs=len(ptasks), stepwise_histories=len(htasks), bounds=solverexp.describe(tasks), resolution_horizon_stops=agg["horizon_stops"],
         samples=[dict(cfg=t["cfg"], alphabet=t.get("alphabet"), prefix=t.get("prefix"), depth=t.get("depth"))
                  for t in tasks[:2]] + rtasks[:2],
     )
@@ -91,6 +146,8 @@ def run(ctx):
 
 
 def replay(rec):
+    if rec.get("driver") == "history":
+        return history_case(rec)
     if rec.get("driver") == "painter":
         from mc import painters
         return painters.case(rec)["c04"]
